@@ -49,6 +49,7 @@ THEOREMS = [
     "IrVerif.Scope.C17_ext_erasure_model",
     "IrVerif.Scope.C17_ext_sharding_named_model",
     "IrVerif.Scope.C17_idempotent_partial",
+    "IrVerif.Scope.C17_ext_payload_fixpoint",
 ]
 ASSUMPTIONS = [
     "byte-level parsing is protobuf's; Python RecursionError counts as 'raises'",
@@ -63,8 +64,11 @@ ASSUMPTIONS = [
     "extended model (Model/ScopeExt.lean, scope.edeser; main graph and nested graphs): value-level metadata_props "
     "MERGED over every entry that reaches a value, quantization annotations, the value each sharding spec "
     "resolves to. It erases to the core model (C17_ext_erasure), so consistency is a theorem (C17_consistent_ext); "
-    "its serialize-deserialize fix-point is NOT a theorem: the model's first and second re-serialization are "
-    "compared with the real ones on every field case (counter ext_model_fixpoint). Function bodies are part of it "
+    "its serialize-deserialize fix-point is a theorem only in its PAYLOAD half (C17_ext_payload_fixpoint: merged "
+    "metadata, annotations and device configurations written by the serializer are read back and written again "
+    "unchanged); the FLOW half (which entry reaches which reloaded value) is not: the model's first and second "
+    "re-serialization are compared with the real ones on every field case (counter ext_model_fixpoint). Function "
+    "bodies are part of it "
     "for IR version >= 10 (scope.medeser; C17_ext_erasure_model, C17_ext_sharding_named_model); below IR version "
     "10 only the main graph is",
     "IR version < 10 function value-info format (Model/ScopeFunc9.lean, scope.mdeser9): modelled (post-pass, "
